@@ -42,7 +42,7 @@ vars == <<S, ev, hist, cls>>
 NoEv == [op |-> "Init"]
 
 Init0 == [now |-> 0, topics |-> <<>>, subs |-> <<>>, msgs |-> <<>>, del |-> <<>>,
-          snaps |-> <<>>, acked |-> {}, gsnap |-> <<>>,
+          snaps |-> <<>>, acked |-> {}, gsnap |-> <<>>, gord |-> <<>>,
           nt |-> 0, ns |-> 0, nm |-> 0, nd |-> 0, ph |-> 0]
 
 Init == S = Init0 /\ ev = NoEv /\ hist = <<>> /\ cls = <<>>
@@ -52,7 +52,7 @@ Do(e0, C2) ==
   LET e == e0 @@ [t0 |-> S.now, t1 |-> S.now]
       S2 == [now |-> S.now, topics |-> C2.topics, subs |-> C2.subs, msgs |-> C2.msgs,
              del |-> C2.del, snaps |-> C2.snaps,
-             acked |-> GhostAcked(S, e, C2), gsnap |-> GhostSnap(S, e, C2),
+             acked |-> GhostAcked(S, e, C2), gsnap |-> GhostSnap(S, e, C2), gord |-> GhostOrd(S, e, C2),
              nt |-> C2.nt, ns |-> C2.ns, nm |-> C2.nm, nd |-> C2.nd,
              ph |-> IF S.ph < Len(Setup) THEN S.ph + 1 ELSE S.ph]
   IN /\ S' = S2 /\ ev' = e /\ hist' = IF Depth > 0 THEN Append(hist, e) ELSE hist
@@ -84,13 +84,17 @@ NewDelRec(s, n) == [n |-> n, done |-> -1, att |-> 0, at |-> S.now + S.subs[s].de
 NextK(del, m, s) == 1 + SetMax({d[3] : d \in {x \in DOMAIN del : x[1] = m /\ x[2] = s}} \cup {0})
 
 ---------------------------------------------------------------------------
-CreateTopic(nm) ==
-  LET e == [op |-> "CreateTopic", name |-> nm, labels |-> <<>>] IN
+\* x: extra event fields (race |-> n: the request is issued n times concurrently)
+NoX == [z \in {} |-> 0]
+CreateTopicX(nm, x) ==
+  LET e == [op |-> "CreateTopic", name |-> nm, labels |-> <<>>] @@ x IN
   IF TopicsNamed(S, nm) # {} THEN Fail(e, "AlreadyExists")
   ELSE /\ S.nt < MaxTopics
        /\ OK(e, [S EXCEPT !.nt = @ + 1,
                           !.topics = (S.nt + 1 :> [name |-> nm, live |-> TRUE, delAt |-> -1,
                                                    labels |-> <<>>, proj |-> Proj(nm)]) @@ @])
+
+CreateTopic(nm) == CreateTopicX(nm, NoX)
 
 DeleteTopic(nm) ==
   LET e == [op |-> "DeleteTopic", name |-> nm] T == TopicsNamed(S, nm) IN
@@ -100,8 +104,8 @@ DeleteTopic(nm) ==
                                         ELSE @[t]],
          !.snaps = [n \in {x \in DOMAIN @ : @[x].topic \notin T} |-> @[n]]])
 
-CreateSub(c) ==
-  LET e == [op |-> "CreateSub", name |-> c.name, topic |-> c.topic, cfg |-> c.cfg]
+CreateSubX(c, x) ==
+  LET e == [op |-> "CreateSub", name |-> c.name, topic |-> c.topic, cfg |-> c.cfg] @@ x
       T == TopicsNamed(S, c.topic)
       DT == IF c.cfg.dlt = "" THEN {0} ELSE TopicsNamed(S, c.cfg.dlt)
       cf == Dflt(c.cfg)
@@ -116,6 +120,8 @@ CreateSub(c) ==
                      filt |-> cf.filt, minB |-> cf.minB, maxB |-> cf.maxB, dlt |-> Pick(DT),
                      maxAtt |-> cf.maxAtt, delay |-> 0, push |-> cf.push, labels |-> cf.labels,
                      proj |-> Proj(c.name)]) @@ @])
+
+CreateSub(c) == CreateSubX(c, NoX)
 
 DeleteSub(nm) ==
   LET e == [op |-> "DeleteSub", name |-> nm] X == SubsNamed(S, nm) IN
@@ -241,6 +247,28 @@ Nack(ids) ==
   IN /\ Cardinality(DOMAIN del2) <= MaxDels
      /\ OK(e, [S EXCEPT !.del = del2, !.nd = @ + Cardinality(D)])
 
+RECURSIVE PickPos(_, _, _)
+PickPos(q, P, i) == IF i > Len(q) THEN <<>> ELSE (IF i \in P THEN <<q[i]>> ELSE <<>>) \o PickPos(q, P, i + 1)
+\* one StreamingPull request that acknowledges ids and nacks nids: one transaction (the
+\* deliveries the stream's sender hands out before and after it are Pull steps of their own)
+StreamAN(snm, ids, nids) ==
+  LET X == SubsNamed(S, snm)
+      A == RangeOf(ids)
+      delA == [d \in DOMAIN S.del |->
+                IF d \in A /\ S.del[d].done = -1 THEN [S.del[d] EXCEPT !.done = S.now] ELSE S.del[d]]
+      I == RangeOf(nids)
+      live == {d \in I : delA[d].done = -1 /\ delA[d].exp > S.now}
+      D == {d \in live : DLable(S, d) /\ SubLive(S, d[2])}
+      e == [op |-> "StreamAN", sub |-> snm, ids |-> ids, nids |-> nids,
+            bo |-> [i \in DOMAIN nids |-> MCBackoff(nids[i][2], S.del[nids[i]].att)]]
+      del1 == [d \in DOMAIN S.del |->
+                IF d \in live \ D THEN [delA[d] EXCEPT !.at = S.now + MCBackoff(d[2], S.del[d].att)]
+                ELSE delA[d]]
+      del2 == DeadLetter(del1, D)
+  IN IF X = {} THEN Fail(e, "NotFound")
+     ELSE /\ Cardinality(DOMAIN del2) <= MaxDels
+          /\ OK(e, [S EXCEPT !.del = del2, !.nd = @ + Cardinality(D)])
+
 SeekApply(s, wantOut(_)) ==
   [d \in DOMAIN S.del |->
      LET r == S.del[d] IN
@@ -263,11 +291,13 @@ SeekTime(snm, T) == SeekTimeM(snm, T, 0)
 \* seek to exactly the publish time of message m (boundary case: "at or before")
 SeekTimeAt(snm, m) == SeekTimeM(snm, S.msgs[m].pub, m)
 
-CreateSnap(nm, snm) ==
-  LET e == [op |-> "CreateSnap", name |-> nm, sub |-> snm] X == SubsNamed(S, snm) IN
+CreateSnapX(nm, snm, x) ==
+  LET e == [op |-> "CreateSnap", name |-> nm, sub |-> snm] @@ x X == SubsNamed(S, snm) IN
   IF nm \in DOMAIN S.snaps THEN Fail(e, "AlreadyExists")
   ELSE IF X = {} THEN Fail(e, "NotFound")
   ELSE OK(e, [S EXCEPT !.snaps = (nm :> [topic |-> S.subs[Pick(X)].topic, proj |-> Proj(nm)]) @@ @])
+
+CreateSnap(nm, snm) == CreateSnapX(nm, snm, NoX)
 
 DeleteSnap(nm) ==
   LET e == [op |-> "DeleteSnap", name |-> nm] IN
@@ -394,6 +424,11 @@ OpNext(op) ==
     [] op = "DeleteTopic" -> \E nm \in TopicNames : DeleteTopic(nm)
     [] op = "CreateSub" -> \E c \in SubCfgs : CreateSub(c)
     [] op = "DeleteSub" -> \E nm \in SubNames : DeleteSub(nm)
+    [] op = "RaceCreate" -> \E r \in {2, 3} :
+          LET x == [race |-> r] IN
+          \/ \E nm \in TopicNames : CreateTopicX(nm, x)
+          \/ \E c \in SubCfgs : CreateSubX(c, x)
+          \/ \E n \in SnapNames, nm \in SubNames : CreateSnapX(n, nm, x)
     [] op = "UpdateSub" -> \E c \in SubCfgs, mk \in UpdMasks : UpdateSub(c, mk)
     [] op = "UpdateFilter" -> \E c \in SubCfgs : UpdateSub(c, <<"filt">>)
     [] op = "UpdateRetry" -> \E c \in SubCfgs : UpdateSub(c, <<"retry">>)
@@ -405,6 +440,8 @@ OpNext(op) ==
     [] op = "Ack" -> \E nm \in SubNames, q \in IdSeqs : Ack(nm, q)
     [] op = "ModAck" -> \E nm \in SubNames, q \in IdSeqs, x \in ModSecs : ModAck(nm, q, x)
     [] op = "Nack" -> \E q \in IdSeqs : Nack(q)
+    [] op = "StreamAN" -> \E nm \in SubNames, q \in IdSeqs, P \in SUBSET (1..AckMax) :
+                            StreamAN(nm, PickPos(q, P, 1), PickPos(q, (1..AckMax) \ P, 1))
     [] op = "SeekTime" -> SeekAny
     [] op = "CreateSnap" -> \E n \in SnapNames, nm \in SubNames : CreateSnap(n, nm)
     [] op = "DeleteSnap" -> \E n \in SnapNames : DeleteSnap(n)
@@ -466,8 +503,9 @@ OneLivePerName ==
 \* C01: an outstanding delivery only disappears for one of the listed reasons
 Out(X, t) == {d \in Dels(X) : OutDef(X, d, t)}
 RetiredM(d) ==
-  \/ ev'.op = "Ack" /\ d \in RangeOf(ev'.ids)
+  \/ ev'.op \in {"Ack", "StreamAN"} /\ d \in RangeOf(ev'.ids)
   \/ ev'.op \in {"Pull", "Nack", "DLSweep"} /\ DLable(S, d)
+  \/ ev'.op = "StreamAN" /\ d \in RangeOf(ev'.nids) /\ DLable(S, d)
   \/ ev'.op \in {"DeleteSub", "ExpireSubs"} /\ ~SubLive(S', d[2])
   \/ ev'.op \in {"SeekTime", "SeekSnap"} /\ SubsNamed(S, ev'.sub) = {d[2]}
   \/ ev'.op = "Tick" /\ S.del[d].exp <= S'.now
